@@ -75,3 +75,22 @@ package vgirpc
 //@ func defaultAllocator
 //@   property C06
 //@   modifies nothing
+
+// A header returned by the init handler goes out as its own stream — written to the same
+// connection writer — before the data stream's writer is even opened, and before the input
+// reader waits for the first tick. (Stated over the values the function itself read: whether
+// the method declares a header, whether the handler returned one.)
+//
+//@ func (*Server).serveStream
+//@   property C06
+//@   pathflag headerSent
+//@   pathflag hasHeaderRead
+//@   pathflag wantsHeader
+//@   pathflag gotHeader
+//@   at load methodInfo.HasHeader mark hasHeaderRead
+//@   at load methodInfo.HasHeader setflag wantsHeader value
+//@   at load StreamResult.Header setflag gotHeader value != nil
+//@   at call (*Server).writeStreamHeader assert [headerargs] arg1 == w && wantsHeader && gotHeader
+//@   at call (*Server).writeStreamHeader mark headerSent
+//@   at call ipc.NewReader assert [headerfirst] hasHeaderRead && (headerSent || !wantsHeader || !gotHeader)
+//@   at call ipc.NewWriter assert [headerbeforedata] hasHeaderRead && (headerSent || !wantsHeader || !gotHeader) && arg0 == w
